@@ -50,31 +50,30 @@ Section Overlay.
     match p with
     | [] => Ret (Ok top)
     | _ =>
-        try* wo := vp_exists w (whiteout_path p) in
-        if wo then Ret (fail ENotFound)
+        (* an entry of the write layer is newer than any deletion marker of its path *)
+        try* up := vp_exists w (write_path p) in
+        if up then Ret (Ok (w, write_path p))
         else
-          try* found := first_layer layers p in
-          match found with
-          | Some lp => Ret (Ok lp)
-          | None =>
-              try* ex := vp_exists w (write_path p) in
-              if ex then Ret (Ok (w, write_path p)) else Ret (fail ENotFound)
-          end
+          try* wo := vp_exists w (whiteout_path p) in
+          if wo then Ret (fail ENotFound)
+          else
+            try* found := first_layer lower p in
+            match found with
+            | Some lp => Ret (Ok lp)
+            | None => Ret (fail ENotFound)
+            end
     end.
 
   Definition ovl_exists (p : path) : bprog (res bool) :=
-    try* wo := vp_exists w (whiteout_path p) in
-    if wo then Ret (Ok false)
-    else
-      let* r := read_path p in
-      match r with
-      | Ok lp => vp_exists (fst lp) (snd lp)
-      | Err e => match e_kind e with
-                 | ENotFound => Ret (Ok false)
-                 | _ => Ret (Err e)
-                 end
-      | Panic => Ret Panic
-      end.
+    let* r := read_path p in
+    match r with
+    | Ok lp => vp_exists (fst lp) (snd lp)
+    | Err e => match e_kind e with
+               | ENotFound => Ret (Ok false)
+               | _ => Ret (Err e)
+               end
+    | Panic => Ret Panic
+    end.
 
   Definition ovl_metadata (p : path) : bprog (res meta) :=
     try* lp := read_path p in vp_metadata (fst lp) (snd lp).
